@@ -262,6 +262,76 @@ def run(ctx) -> None:
                 okc, msgc = False, f"a path that observes _closed does not return None ({p.outcome[0]})"
     ctx.check(okc and nclosed > 0, RC, f"{CLS}.get", msgc or "get() never tests the closed flag", ci.methods["get"].loc)
 
+    # ---------------------------------------------------------------- wait polarity, closed flag, guarded head access, remove()
+    RP = ctx.rule("C17/wait-and-head-access", "get() waits exactly while the deque is empty and the queue is not closed; every read of the head is dominated, in the same critical section and after the last wait, by a test that the deque is non-empty; close() sets the closed flag", floor=3)
+    RX = ctx.rule("C17/remove-returns-the-match", "remove() deletes and returns the first element for which the predicate holds, under the lock, and returns None (deleting nothing) otherwise", floor=1)
+
+    def nonempty_fact(e):
+        """+1 if the cond event establishes a non-empty deque, -1 if it establishes an empty one, 0 otherwise."""
+        if e.kind != "cond":
+            return 0
+        t, truth = e.text, bool(e.extra.get("truth"))
+        if re.fullmatch(r"len\(self\._queue\) == 0", t):
+            return -1 if truth else 1
+        if re.fullmatch(r"len\(self\._queue\) (> 0|>= 1|!= 0)", t):
+            return 1 if truth else -1
+        if t == "self._queue" or t == "len(self._queue)":
+            return 1 if truth else -1
+        return 0
+
+    okw = okh = True
+    msgw = msgh = ""
+    nwaits = nheads = 0
+    for p in walk_body(gpaths):
+        known = 0  # knowledge about emptiness valid in the current critical section
+        closed_known = None
+        for e in p.evs:
+            if e.kind in ("acquire", "release"):
+                known, closed_known = 0, None
+            f = nonempty_fact(e)
+            if f:
+                known = f
+            if e.kind == "cond" and e.text == "self._closed":
+                closed_known = bool(e.extra.get("truth"))
+            if e.kind == "wait" and not e.extra.get("timed"):
+                nwaits += 1
+                if not (known == -1 and closed_known is False):
+                    okw, msgw = False, f"wait() is reached with emptiness={'empty' if known == -1 else 'non-empty' if known == 1 else 'unknown'}, closed={closed_known}: the consumer must wait exactly while the deque is empty and the queue is open (otherwise it sleeps on a non-empty queue or after close())"
+                known, closed_known = 0, None
+            if e.kind == "subscript" and e.extra.get("container") == "self._queue" and e.extra.get("key") == "0":
+                nheads += 1
+                if known != 1:
+                    okh, msgh = False, "the head `self._queue[0]` is read without a non-emptiness test in the same critical section after the last wait: a partner pulled out by remove() between the wake-up and the re-acquire leaves the deque empty -> IndexError in the emitter thread with the lock held"
+    ctx.check(okw and nwaits > 0, RP, f"{CLS}.get waits iff empty and open", msgw or "no untimed wait found", ci.methods["get"].loc)
+    ctx.check(okh and nheads > 0, RP, f"{CLS}.get head access guarded", msgh or "no head access found", ci.methods["get"].loc)
+    cl = all_paths.get("close")
+    okcl = bool(cl) and all(any(e.kind == "store" and e.extra.get("attr") == "_closed" and e.extra.get("value") == "True" for e in p.evs) for p in cl)
+    ctx.check(okcl, RP, f"{CLS}.close sets the closed flag", "close() does not set _closed = True on every path: a blocked or later get() never sees the end marker", ci.methods["close"].loc if "close" in ci.methods else ci.loc)
+
+    rp_ = all_paths.get("remove")
+    if rp_ is None:
+        raise AnalysisError("anchor vanished: DelayedQueue.remove")
+    okr, msgr = True, ""
+    ndel2 = 0
+    for p in rp_:
+        dels = [i for i, e in enumerate(p.evs) if e.kind == "del" and e.extra.get("container") == "self._queue"]
+        matched = [e for e in p.evs if e.kind == "cond" and re.fullmatch(r"predicate\(.*\)", e.text)]
+        ret = p.outcome[1] if p.outcome[0] == "return" else None
+        rtxt = ast.unparse(ret) if ret is not None else None
+        if dels:
+            ndel2 += 1
+            last = matched[-1] if matched else None
+            if last is None or not last.extra.get("truth"):
+                okr, msgr = False, "an element is deleted although the predicate did not hold for it"
+            elif not (rtxt and rtxt in last.text):
+                okr, msgr = False, f"the deleted element is not the one returned (returns `{rtxt}`): it is lost"
+        else:
+            if rtxt not in (None, "None"):
+                okr, msgr = False, f"remove() returns `{rtxt}` without deleting it from the deque: it will be handed out again by get()"
+            if any(e.extra.get("truth") for e in matched):
+                okr, msgr = False, "the predicate held for an element but nothing was deleted"
+    ctx.check(okr and ndel2 > 0, RX, f"{CLS}.remove", msgr or "remove() never deletes", ci.methods["remove"].loc)
+
     # ---------------------------------------------------------------- indexed deletion is atomic with the search
     RA = ctx.rule("C17/search-and-delete-atomic", "an element is deleted by index only inside the critical section in which that index was found by enumerating the live deque (no release in between, no snapshot)", floor=1)
     ndel = 0
@@ -330,6 +400,13 @@ VARIANTS = [
     dict(name="B remove without lock", expect="fire", rule="C17/guarded-by", edits=[(DQ, "        with self._lock:\n            for i, (elem, *_) in enumerate(self._queue):", "        if True:\n            for i, (elem, *_) in enumerate(self._queue):")]),
     dict(name="B put without notify", expect="fire", rule="C17/monitor-discipline", edits=[(DQ, "        self._queue.append((element, time.time(), delay))\n        self._not_empty.notify()", "        self._queue.append((element, time.time(), delay))")]),
     dict(name="B closed returns head", expect="fire", rule="C17/", edits=[(DQ, "            if self._closed:\n                self._not_empty.release()\n                return None", "            if self._closed and len(self._queue) == 0:\n                self._not_empty.release()\n                return None")]),
+    dict(name="B wait predicate polarity flipped", expect="fire", rule="C17/wait-and-head-access", edits=[(DQ, "while len(self._queue) == 0 and not self._closed:", "while len(self._queue) != 0 and not self._closed:")]),
+    dict(name="B wait with if instead of while", expect="fire", rule="C17/", edits=[(DQ, "            while len(self._queue) == 0 and not self._closed:\n                self._not_empty.wait()", "            if not self._queue and not self._closed:\n                self._not_empty.wait()")]),
+    dict(name="B close sets the flag to False", expect="fire", rule="C17/wait-and-head-access", edits=[(DQ, "        self._closed = True\n        # Interrupt", "        self._closed = False\n        # Interrupt")]),
+    dict(name="B head popped without emptiness test", expect="fire", rule="C17/wait-and-head-access", edits=[(DQ, "if len(self._queue) > 0 and self._queue[0][0] is head:", "if self._queue[0][0] is head:")]),
+    dict(name="B remove deletes the first non-match", expect="fire", rule="C17/remove-returns-the-match", edits=[(DQ, "                if predicate(elem):\n                    del self._queue[i]", "                if not predicate(elem):\n                    del self._queue[i]")]),
+    dict(name="B remove loses the element", expect="fire", rule="C17/remove-returns-the-match", edits=[(DQ, "                    del self._queue[i]\n                    return elem", "                    del self._queue[i]\n                    return None")]),
+    dict(name="B remove returns without deleting", expect="fire", rule="C17/remove-returns-the-match", edits=[(DQ, "                    del self._queue[i]\n                    return elem", "                    return elem")]),
     dict(name="B remove searches a snapshot outside the lock", expect="fire", rule="C17/search-and-delete-atomic", edits=[(DQ, "        with self._lock:\n            for i, (elem, *_) in enumerate(self._queue):\n                if predicate(elem):\n                    del self._queue[i]\n                    return elem\n        return None", "        with self._lock:\n            snapshot = list(self._queue)\n        for i, (elem, *_) in enumerate(snapshot):\n            if predicate(elem):\n                with self._lock:\n                    del self._queue[i]\n                return elem\n        return None")]),
     dict(name="E with-statement for explicit pairs in put", expect="silent", edits=[(DQ, "        self._lock.acquire()\n        self._queue.append((element, time.time(), delay))\n        self._not_empty.notify()\n        self._lock.release()", "        with self._not_empty:\n            self._queue.append((element, time.time(), delay))\n            self._not_empty.notify()")]),
     dict(name="E notify -> notify_all", expect="silent", edits=[(DQ, "        self._queue.append((element, time.time(), delay))\n        self._not_empty.notify()", "        self._queue.append((element, time.time(), delay))\n        self._not_empty.notify_all()")]),
